@@ -1,7 +1,7 @@
 #!/bin/bash
 # usage: runall.sh [quick|thorough] [seed]  — runs every registered check, prints one line each
 tier=${1:-quick}; seed=${2:-1}
-cd /verif
+cd "$(dirname "$0")/.." || exit 2
 for id in $(python3 -c "import json;print(' '.join(c['property_id'] for c in json.load(open('MANIFEST.json'))['checks']))"); do
   out=$(VERIF_SEED=$seed ./check $id $tier 2>&1); rc=$?
   echo "$id rc=$rc $(echo "$out" | tail -1 | cut -c1-160)"
